@@ -191,6 +191,17 @@ func Matrix() Set {
 		{Name: "tagm", Num: 7, Kind: Int64, Map: true, KeyKind: Int32},
 		{Name: "name", Num: 8, Kind: String},
 	}})
+	// enums nested in messages at different depths, in an earlier and in a later top-level message (the file's enum table is in
+	// depth-first declaration order; every enum-typed field and every enum's own descriptor must point at the right entry)
+	msgs = append(msgs, M{Name: "Eo", Fields: []F{
+		{Name: "deep", Num: 1, Kind: Enum, TypeName: ".vm.Eo.Mid.Inner.Deep"}, {Name: "mids", Num: 2, Kind: Enum, TypeName: ".vm.Eo.Mid.Level", Rep: true},
+		{Name: "flag", Num: 3, Kind: Enum, TypeName: ".vm.El.Flag"}, {Name: "top", Num: 4, Kind: Enum, TypeName: ".vm.Eo.Top", Map: true, KeyKind: String}},
+		Enums: []E{{Name: "Top", Values: []EV{{"TOP_ZERO", 0}, {"TOP_ONE", 1}}}},
+		Nested: []M{{Name: "Mid", Enums: []E{{Name: "Level", Values: []EV{{"LEVEL_ZERO", 0}, {"LEVEL_LOW", -3}, {"LEVEL_HIGH", 300}}}},
+			Nested: []M{{Name: "Inner", Fields: []F{{Name: "d", Num: 1, Kind: Enum, TypeName: ".vm.Eo.Mid.Inner.Deep", Oneof: "k"}, {Name: "l", Num: 2, Kind: Enum, TypeName: ".vm.Eo.Mid.Level", Oneof: "k"}},
+				Enums: []E{{Name: "Deep", Values: []EV{{"DEEP_ZERO", 0}, {"DEEP_ONE", 1}, {"DEEP_TWO", 2}}}}}}}}})
+	msgs = append(msgs, M{Name: "El", Fields: []F{{Name: "f", Num: 1, Kind: Enum, TypeName: ".vm.El.Flag"}, {Name: "deep", Num: 2, Kind: Enum, TypeName: ".vm.Eo.Mid.Inner.Deep"}},
+		Enums: []E{{Name: "Flag", Values: []EV{{"FLAG_ZERO", 0}, {"FLAG_SET", 5}}}}})
 	// Rm: recursion through a map value (map-entry subfields that overrun their entry re-read the same bytes at every level)
 	msgs = append(msgs, M{Name: "Rm", Fields: []F{
 		{Name: "m", Num: 1, Kind: Message, TypeName: ".vm.Rm", Map: true, KeyKind: Int32},
